@@ -3,6 +3,7 @@ module verif/mc
 go 1.23
 
 require (
+	github.com/deckarep/golang-set v1.7.1
 	github.com/idena-network/idena-go v0.0.0
 	github.com/tendermint/tm-db v0.6.7
 )
@@ -18,7 +19,6 @@ require (
 	github.com/cosmos/iavl v0.15.3 // indirect
 	github.com/cpuguy83/go-md2man/v2 v2.0.0 // indirect
 	github.com/crackcomm/go-gitignore v0.0.0-20170627025303-887ab5e44cc3 // indirect
-	github.com/deckarep/golang-set v1.7.1 // indirect
 	github.com/decred/dcrd/dcrec/secp256k1/v4 v4.0.1 // indirect
 	github.com/dsnet/compress v0.0.1 // indirect
 	github.com/go-logr/logr v1.2.3 // indirect
